@@ -25,10 +25,13 @@ CONTRACT = {
 }
 
 
-def run(ctx, rule="R15.4"):
+def run(ctx, rule="R15.4", files=None, floor=100):
+    """files: restrict to these kernel modules (the properties whose sums a kernel carries share the rule for that kernel only)"""
     total = 0
     for rel, contract in CONTRACT.items():
+        if files is not None and rel not in files:
+            continue
         mod = ctx.prog.mod(rel)
         total += bounds.analyse_module(mod, contract, ctx, rule, rel)
-    ctx.floor(rule, "index-in-bounds obligations", total, 100)
+    ctx.floor(rule, "index-in-bounds obligations", total, floor)
     return total
